@@ -16,6 +16,7 @@ package main
 // what every later lookup sees.
 
 import (
+	"bytes"
 	"encoding/json"
 	"fmt"
 	"os"
@@ -23,6 +24,7 @@ import (
 	"path/filepath"
 	"sync"
 	"sync/atomic"
+	"syscall"
 	"time"
 )
 
@@ -31,12 +33,16 @@ func init() { commands["c08conc"] = runC08ConcChild }
 // c08Concurrent runs the stage for each backend in a child process: an unsynchronised map access is a fatal
 // error of the Go runtime that no recover() catches — the child dying IS the observation then.
 func c08Concurrent(c *Ctx) {
+	for _, storage := range []string{"memory", "disk"} {
+		rolloverCheck(c, rolloverScenario(c, storage))
+		c.Rep.Cases++
+	}
 	self, _ := os.Executable()
 	for _, storage := range []string{"memory", "disk"} {
 		out := c.TempDir("c08conc_out_" + storage)
 		cmd := exec.Command(self, "c08conc", "--out", out, "--work", filepath.Join(c.Work, "c08conc_"+storage)+"|"+storage, "--tier", c.Tier, "--seed", fmt.Sprint(c.Seed))
 		cmd.Env = append(os.Environ(), "VERIF_DIR="+os.Getenv("VERIF_DIR"))
-		b, err := cmd.CombinedOutput()
+		b, err := runWithDeadline(cmd, map[bool]time.Duration{false: 150 * time.Second, true: 15 * time.Minute}[c.Thorough()])
 		var res c08ConcResult
 		rb, rerr := os.ReadFile(filepath.Join(out, "c08conc.json"))
 		c.Count("concurrent=" + storage)
@@ -45,6 +51,8 @@ func c08Concurrent(c *Ctx) {
 			txt := string(b)
 			if i := indexOf(txt, "fatal error:"); i >= 0 {
 				txt = txt[i:]
+			} else if i := indexOf(txt, "sync.(*RWMutex)"); i >= 0 && i > 600 {
+				txt = txt[i-600:]
 			}
 			if len(txt) > 1500 {
 				txt = txt[:1500]
@@ -213,4 +221,33 @@ func splitBar(s string) []string {
 		}
 	}
 	return append(out, cur)
+}
+
+// runWithDeadline runs a child; a child that does not finish is sent SIGQUIT (the Go runtime then prints every
+// goroutine's stack) and, two seconds later, killed.
+func runWithDeadline(cmd *exec.Cmd, d time.Duration) ([]byte, error) {
+	var buf bytes.Buffer
+	cmd.Stdout, cmd.Stderr = &buf, &buf
+	if err := cmd.Start(); err != nil {
+		return nil, err
+	}
+	done := make(chan error, 1)
+	go func() { done <- cmd.Wait() }()
+	select {
+	case err := <-done:
+		return buf.Bytes(), err
+	case <-time.After(d):
+		cmd.Process.Signal(syscall.SIGQUIT)
+		select {
+		case <-done:
+		case <-time.After(2 * time.Second):
+			cmd.Process.Kill()
+			<-done
+		}
+		out := buf.Bytes()
+		if i := bytes.Index(out, []byte("SIGQUIT")); i >= 0 {
+			out = out[i:]
+		}
+		return out, fmt.Errorf("did not finish within %v (deadlock or livelock)", d)
+	}
 }
